@@ -92,7 +92,8 @@ impl World {
     }
 
     pub fn connack_packet(&self, session_present: bool, variant: u8) -> Pkt {
-        let t = &self.cfg.connack;
+        let t = self.cfg.connack_for(self.conns_opened).clone();
+        let t = &t;
         if variant == 1 {
             return Pkt::Connack(VConnack { session_present: false, reason_code: 135, ..Default::default() });
         }
@@ -563,7 +564,14 @@ impl World {
                     ErrKind::ClientClosed => {
                         if during != "reset" { self.violate("C01", format!("client-closed-outside-reset {}", during), format!("tag {}", tag)); }
                     }
-                    ErrKind::PacketValidationFailure => {}
+                    ErrKind::PacketValidationFailure => {
+                        // C16: an operation that satisfies every static rule and announced limit is never rejected
+                        let mut candidate = op.pkt.clone();
+                        match &mut candidate { Pkt::Publish(p) => { if p.qos > 0 { p.packet_id = 1; } } Pkt::Subscribe(x) => x.packet_id = 1, Pkt::Unsubscribe(x) => x.packet_id = 1, _ => {} }
+                        if during == "service" && self.limit_violation(&candidate, ci).is_none() {
+                            self.violate("C16", format!("conforming-operation-rejected {:?}", op.kind), format!("tag {} ({:?}, spec {}) failed validation although it breaks no static rule and no limit of connection {}", tag, op.kind, op.spec, ci));
+                        }
+                    }
                     ErrKind::ConnectionClosed | ErrKind::ProtocolError | ErrKind::InternalStateError | ErrKind::DecodingFailure | ErrKind::EncodingFailure | ErrKind::UserInitiatedDisconnect | ErrKind::ConnectionEstablishmentFailure => {
                         let prop = if *kind == ErrKind::ConnectionClosed && policy_keeps(self.cfg.offline, op.kind) { "C15" } else { "C01" };
                         self.violate(prop, format!("user-operation-failed-with {:?} during {}", kind, during), format!("tag {} ({:?})", tag, op.kind));
